@@ -61,6 +61,7 @@ def run(ctx):
         lib_reader.check(ctx, "read")
     except ImportError:
         pass
+    scan_record(ctx)
     # the tally classifies by the decoded level: the message-info decoder must follow the DLT table (shared with C14)
     from rules import lib_codes
     lib_codes.check_msin(ctx)
@@ -70,3 +71,98 @@ def run(ctx):
         lib_stats.check(ctx)
     except ImportError:
         R.notes.append("TAB-C / FLOW / merge tables not built yet")
+
+
+def scan_record(ctx, rule="SCAN"):
+    """SCAN: the record the scan hands the collector describes the message it was cut from.  One iteration of the scan
+    loop is analysed with the reader's slice and the three header parsers replaced by symbolic results; every `Statistic`
+    built must carry the parsed standard header, the parsed extended header exactly when one was parsed, `is_verbose` =
+    that header's verbose flag (false without extended header — whatever the message type), and `log_level` = the level
+    of a Log message type (None for every other type and without extended header)."""
+    from engine.contracts import ret_ty
+    from engine.interp import Engine
+    from engine.values import Bool, Enum, Struct, Top
+    from rules.lib_fibexflow import once_body
+    F, R = ctx.facts, ctx.report
+    ADT = "statistics::Statistic"
+    if ADT not in F.adts or F.body(FN) is None:
+        R.notes.append("%s: %s / %s not found (not decided)" % (rule, ADT, FN))
+        return
+    b1 = once_body(F, FN)
+    if b1 is None:
+        R.notes.append("%s: no scan loop in %s (not decided)" % (rule, FN))
+        return
+    names = [f["name"] for f in F.adts[ADT]["variants"][0]["fields"]]
+    need = {"log_level", "standard_header", "extended_header", "is_verbose"}
+    if not need <= set(names):
+        R.notes.append("%s: %s has fields %s (not decided)" % (rule, ADT, names))
+        return
+    hooked = {"parse::dlt_standard_header": "sh", "parse::dlt_storage_header": "sth", "parse::dlt_extended_header": "eh"}
+    recs = []
+    eng = Engine(F, budget=2000000)
+    eng.key_all = True
+
+    def on_call(eng_, st, fr, f, args, site):
+        p = f.get("resolved") or f["path"]
+        if p in hooked:
+            return [(st, Top(ret_ty(eng_, site), hooked[p]))]
+        if p.endswith("::next_message_slice"):
+            return [(st, Top(ret_ty(eng_, site), "slice_res"))]
+        if f.get("name") == "collect_statistic":
+            return [(st, Top(ret_ty(eng_, site), "collected"))]
+        return None
+
+    def on_agg(eng_, st, fr, rv, ops):
+        if rv["adt"] == ADT:
+            recs.append((st, dict(zip(names, ops))))
+
+    eng.on_call, eng.on_agg = on_call, on_agg
+    fl, ln = F.body(FN)["span"]["f"], F.body(FN)["span"]["l"]
+    try:
+        eng.call_path(b1["path"], eng.symbolic_args(b1))
+    except Exception as ex:
+        R.notes.append("%s: %s could not be analysed (%r) (not decided)" % (rule, FN, ex))
+        return
+    if not recs:
+        R.violation(rule, FN + "|no-record", "no construction of a Statistic record seen in the scan loop", function=FN, kind="UNRECOGNISED-SHAPE")
+        return
+    n = 0
+    for st, rec in recs:
+        why = []
+        eh = rec["extended_header"]
+        ehv = [eng.T.variant_name(eh.ty, vi) for vi, _ in eh.variants] if isinstance(eh, Enum) else None
+        if "sh.Ok.0.1" not in repr(rec["standard_header"]):
+            why.append("standard_header is not the header parsed from the slice (%s)" % repr(rec["standard_header"])[:80])
+        if ehv is None or len(ehv) != 1:
+            why.append("extended_header is not decided on this path")
+        else:
+            has = ehv[0] == "Some"
+            if has and "eh.Ok.0.1" not in repr(eh):
+                why.append("extended_header is not the header parsed from the slice")
+            iv = rec["is_verbose"]
+            c = eng.simplify_cond(st, iv.cond) if isinstance(iv, Bool) else None
+            if has:
+                if c != ("sym", "eh.Ok.0.1.verbose") and not (c is not None and c[0] == "const" and any(k[0] == "sym" and k[1] == "eh.Ok.0.1.verbose" and k[2] == c[1] for k in st.key)):
+                    why.append("is_verbose is %s, not the extended header's verbose flag" % (c,))
+            elif c != ("const", False):
+                why.append("is_verbose is %s without an extended header (must be false)" % (c,))
+            lv = rec["log_level"]
+            lvv = [eng.T.variant_name(lv.ty, vi) for vi, _ in lv.variants] if isinstance(lv, Enum) else None
+            mt = [k[2] for k in st.key if k[0] == "variant" and str(k[1]).endswith("eh.Ok.0.1.message_type")]
+            if not has:
+                if lvv != ["None"]:
+                    why.append("log_level is %s without an extended header" % lvv)
+            elif lvv == ["Some"]:
+                if "eh.Ok.0.1.message_type.Log.0" not in repr(lv) or (mt and mt[-1] != "Log"):
+                    why.append("log_level is Some(..) not taken from a Log message type (%s)" % repr(lv)[:80])
+            elif lvv == ["None"]:
+                if mt and mt[-1] == "Log":
+                    why.append("log_level is None for a Log message")
+            else:
+                why.append("log_level is not decided on this path (%s)" % lvv)
+        if why:
+            R.violation(rule, "%s|record|%s" % (FN, why[0].split(" (")[0][:50]), "the Statistic record handed to the collector does not describe the message: %s" % "; ".join(why), function=FN, file=fl, line=ln)
+        else:
+            n += 1
+            R.obligation(rule, "%s|record|%d" % (FN, n), "discharged", "standard / extended header, is_verbose and log_level taken from the parsed headers")
+    R.instance(rule, "%d Statistic record construction(s) in one iteration of the scan" % len(recs))
